@@ -18,6 +18,10 @@ open Qlibc Qlibc.Str
     tok X D                                 -> ok <n> <tok>/<stop>/<off> ... buf <block>
     tokenizer X D                           -> ok <n> <tok> ...
     cpyov BUF D S SIZE | ncpyov BUF D S SIZE NB -> ok <block> ret <D>   (dst, src in one block)
+    dupfx FMT ARG | catfx CAP DST FMT ARG   -> like dupf / catf with the format given as bytes
+                                               (literal bytes, %%, at most one %s showing ARG)
+    locale on DIR | locale off              -> ok   (harness: LC_CTYPE := xx_XX from DIR / "C";
+                                               the model is locale-free, the results must not change)
     comma N                                 -> ok <string> alloc 15
     ip4 X | email X | test CLASS X          -> true | false
     dupf s X | dupf d N | dupf ss X Y       -> ok <string> allocs 1024[,2048…]
@@ -171,6 +175,21 @@ def step (_ : Unit) (ws : List String) : Unit × String :=
     | ["test", cls, x] => match ctypeOf cls, arg x with
         | some p, .ok b => showBool (qstrtest p (blk b))
         | _, _ => "bad-op"
+    | ["dupfx", fmt, a] => match arg fmt, arg a with
+        | .ok fmt, .ok a =>
+          (match qstrdupf (fmtExpand (cstr a) (cstr fmt)) with
+           | .ok (b, al) => s!"ok {hx (cstr b)}" ++ showAllocs al
+           | .error f => faultStr f)
+        | _, _ => "bad-op"
+    | ["catfx", cap, d, fmt, a] => match nat? cap, arg d, arg fmt, arg a with
+        | some cap, .ok d, .ok fmt, .ok a =>
+          let dst := blk d ++ List.replicate (cap - (d.length + 1)) fillByte
+          (match qstrcatf dst (fmtExpand (cstr a) (cstr fmt)) with
+           | .ok (b, al) => s!"ok {hx b}" ++ showAllocs al
+           | .error f => faultStr f)
+        | _, _, _, _ => "bad-op"
+    | ["locale", _] => "ok"
+    | ["locale", _, _] => "ok"
     | "dupf" :: fmt => match fmtOf fmt with
         | some out =>
           (match qstrdupf out with
